@@ -57,17 +57,7 @@ pub open spec fn named_end_target(t: &Tokenizer, cr: &CharRefTokenizer, end_char
     run(cr_named_end(a0, nend(end_char)), norm(end_char == Some('\r'), q.view()))
 }
 
-// ---- what is ASSUMED of the named-character-reference table (re-validated on every run by enumerating the
-//      generated table of the build, see DESIGN.md C14) ----
-#[verifier::external_body]
-pub proof fn axiom_ent_table()
-    ensures
-        ent_prefix(Seq::<char>::empty()),
-        forall|n: Seq<char>| #[trigger] ent_value(n) is Some ==> ent_prefix(n) && n.len() > 0,
-        forall|n: Seq<char>, i: int| #[trigger] ent_prefix(n) && 0 <= i < n.len() ==> spec_alnum(#[trigger] n[i]) || n[i] == ';',
-        forall|n: Seq<char>| #[trigger] ent_value(n) is Some ==> ent_value(n).unwrap().0 != 0
-            && spec_from_u32(ent_value(n).unwrap().0) is Some && spec_from_u32(ent_value(n).unwrap().1) is Some,
-{}
+// (axiom_ent_table and lemma_ascii_chars are in enttab.prelude.rs)
 
 // ---- lemmas about the character-reference part of the spec machine (proved; no code involved) ----
 pub open spec fn plain_cr(c: char) -> bool { spec_alnum(c) || c == ';' || c == '#' }
@@ -146,36 +136,6 @@ pub proof fn lemma_unconsume(b: AbsTok, x: Seq<char>, v: Seq<char>)
     assert forall|i: int| 0 <= i < x.len() implies #[trigger] x[i] != '\r' && x[i] != '\n' by { assert(plain_cr(x[i])); }
     lemma_norm_plain(x, v);
     lemma_host_plain(b, x, norm(false, v));
-}
-/// the first k characters of s are ASCII: byte offsets up to k are character offsets
-pub proof fn lemma_ascii_chars(s: Seq<char>, k: nat)
-    requires k <= s.len(), forall|i: int| 0 <= i < k ==> (#[trigger] s[i] as u32) < 128,
-    ensures
-        utf8(s.take(k as int)).len() == k,
-        cidx(s, k) == k,
-        is_boundary(s, k),
-        utf8(s).len() == k + utf8(s.skip(k as int)).len(),
-        (utf8(s).len() == k) == (s.len() == k),
-    decreases k,
-{
-    if k == 0 {
-        assert(s.take(0) =~= Seq::<char>::empty());
-        assert(s.skip(0) =~= s);
-        lemma_utf8_empty(s);
-        if s.len() > 0 { lemma_enc(s[0]); }
-    } else {
-        let c = s[0];
-        let r = s.drop_first();
-        lemma_enc(c);
-        assert((c as u32) < 128);
-        assert forall|i: int| 0 <= i < k - 1 implies (#[trigger] r[i] as u32) < 128 by { assert(r[i] == s[i + 1]); }
-        lemma_ascii_chars(r, (k - 1) as nat);
-        assert(s.take(k as int) =~= seq![c] + r.take(k - 1));
-        assert((seq![c] + r.take(k - 1)).drop_first() =~= r.take(k - 1));
-        assert(s.skip(k as int) =~= r.skip(k - 1));
-        assert(utf8(s) =~= enc(c) + utf8(r));
-        assert(s.take(cidx(s, k) as int) =~= s.take(k as int));
-    }
 }
 pub proof fn lemma_lm_bound(name: Seq<char>, k: int)
     ensures 0 <= longest_match(name, k) <= (if k < 0 { 0 } else { k }),
